@@ -3,6 +3,7 @@ package props
 import (
 	"crypto/tls"
 	"encoding/json"
+	"errors"
 	"fmt"
 	"strings"
 	"time"
@@ -128,7 +129,9 @@ func (w *c15World) body() {
 			w.srv.SetPort(0)
 		case 'e':
 			w.srv.SetTLSPort(0)
-		case 'p', 'i', 'q', 'j':
+		case 'p', 'i', 'q', 'j', 'k':
+			// k: like i, but the server's Close of this connection will close it and report an
+			// error (what crypto/tls does when the close notification cannot be sent)
 			cl, o := w.connect(step == 'q' || step == 'j')
 			if !w.running {
 				if o.Status != "refused" {
@@ -148,6 +151,9 @@ func (w *c15World) body() {
 				w.fail("not-serving:ping-"+r.Status, pos+": Start/Restart returned nil, the dial was queued but PING got "+r.String())
 				cl.Close()
 				continue
+			}
+			if step == 'k' {
+				cl.Raw().Peer().CloseErr = errors.New("failed to send closeNotify alert (but connection was closed anyway)")
 			}
 			if step == 'p' || step == 'q' {
 				cl.Close()
@@ -405,6 +411,8 @@ func c15Run(c *fw.Ctx) {
 	// a port disabled in the configuration while the server runs, then Stop
 	reconf := []string{"SdT", "SidT", "SpdT", "SdTp", "SqeT", "SjeT", "SjdeT", "SdPT",
 		// TLS clients whose handshake fails, with the server left running, stopped or restarted afterwards
+		// connections whose Close reports an error, before and after others in the registry
+		"SkiT", "SikT", "SkiiT", "SkjT", "SkiR", "SikRp", "SkiPT",
 		"Sx", "Sy", "Sxj", "Sjy", "SxyT", "SxRy", "SjxRj", "SyQT", "XSxj", "XSyT"}
 	if !phase("p1_reconfigured_bound2", reconf, 2) {
 		return
